@@ -185,7 +185,7 @@ func render1(w writer, n *Node) error {
 	}
 
 	// Add initial newline where there is danger of a newline being ignored.
-	if c := n.FirstChild; c != nil && c.Type == TextNode && strings.HasPrefix(c.Data, "\n") {
+	if c := n.FirstChild; c != nil && n.Namespace == "" && c.Type == TextNode && strings.HasPrefix(c.Data, "\n") {
 		switch n.Data {
 		case "pre", "listing", "textarea":
 			if err := w.WriteByte('\n'); err != nil {
